@@ -4,6 +4,7 @@ import (
 	"bytes"
 	"fmt"
 	"io"
+	"syscall"
 
 	"github.com/talostrading/sonic/codec/websocket"
 
@@ -46,6 +47,9 @@ type c08Peer struct { // one frame the peer sent and the client has not consumed
 
 type c08 struct {
 	*wsSess
+	// lossy: a flush was made to fail once (transient transport error): what was pending then may be lost or
+	// go out later, but never twice - the wire is judged as an in-order subsequence of the expected frames
+	lossy    bool
 	state    int
 	queue    []c08Peer
 	peerDone bool // the peer sent Close (it sends nothing more)
@@ -64,6 +68,7 @@ var (
 	c08pInvClose      = sim.RegStat("probe:c08-invalid-close-consumed")
 	c08pCloseInFlight = sim.RegStat("probe:c08-asyncclose-still-in-flight-when-the-next-call-is-made")
 	c08pDataEOF       = sim.RegStat("probe:c08-transport-may-report-eof-together-with-the-last-bytes")
+	c08pTransient     = sim.RegStat("probe:c08-flush-failed-once-with-a-transient-error")
 	c08pLocalClose    = sim.RegStat("probe:c08-local-close")
 	c08pAcked         = sim.RegStat("probe:c08-close-handshake-completed-we-started")
 	c08pViolClosed    = sim.RegStat("probe:c08-violation-after-local-close")
@@ -495,6 +500,19 @@ func (d *c08) verifyWire(final bool) {
 			c.Failf("data-frame-after-close-frame", "frame %d (opcode %d) follows the client's Close frame on the wire", i, f.Opcode)
 		}
 	}
+	if d.lossy {
+		j := 0
+		for i, f := range frames {
+			for j < len(d.expect) && !c08Same(f, d.expect[j]) {
+				j++
+			}
+			if j >= len(d.expect) {
+				c.Failf("frame-repeated-or-invented-after-transient-error", "frame %d on the wire (opcode %d, %d bytes) is not the next of the frames the history calls for, each at most once and in order: a frame whose flush failed once went out twice, or something was invented", i, f.Opcode, len(f.Payload))
+			}
+			j++
+		}
+		return
+	}
 	for i, f := range frames {
 		if i >= len(d.expect) {
 			c.Failf("unexpected-frame-on-wire", "frame %d on the wire (opcode %d, %d bytes) corresponds to nothing the history calls for; expected %d frames", i, f.Opcode, len(f.Payload), len(d.expect))
@@ -522,6 +540,39 @@ func (d *c08) verifyWire(final bool) {
 		e := d.expect[len(frames)]
 		c.Failf("expected-frame-missing", "after the final flush the wire holds %d frames, the history calls for %d; missing: opcode %d (%d trailing bytes)", len(frames), len(d.expect), e.Opcode, len(rest))
 	}
+}
+
+// c08Same: is wire frame f the expected frame e (Close frames by status code)?
+func c08Same(f wsFrame, e wsFrame) bool {
+	if f.Opcode != e.Opcode {
+		return false
+	}
+	if f.Opcode == wsClose {
+		return len(f.Payload) >= 2 && len(e.Payload) >= 2 && f.Payload[0] == e.Payload[0] && f.Payload[1] == e.Payload[1] || len(f.Payload) < 2 && len(e.Payload) < 2
+	}
+	return bytes.Equal(f.Payload, e.Payload)
+}
+
+// transientFlushError: control replies are queued; the application's flush fails once with a transient error
+// and the transport stays usable.
+func (d *c08) transientFlushError() {
+	if d.mem == nil || d.dead || d.ws.Pending() == 0 || d.mem.pw != nil {
+		return
+	}
+	w := d.w
+	w.Stat(c08pTransient)
+	d.lossy = true
+	d.mem.wrErrOnce = syscall.ENOBUFS
+	if w.Chance(1, 2) {
+		done := false
+		d.ws.AsyncFlush(func(error) { done = true })
+		if !d.waitFor(&done) {
+			d.c.Failf("flush-never-completes", "AsyncFlush never completed after a transient write error")
+		}
+	} else {
+		_ = d.ws.Flush()
+	}
+	d.mem.wrErrOnce = nil
 }
 
 func runC08(c *Ctx, variant int) {
@@ -554,7 +605,9 @@ func runC08(c *Ctx, variant int) {
 	}
 	steps := w.Range(3, c.Deep(12))
 	for i := 0; i < steps; i++ {
-		switch w.Choose(16) {
+		switch w.Choose(17) {
+		case 16:
+			d.transientFlushError()
 		case 0, 1:
 			d.peerSend(pvData)
 		case 2, 3:
